@@ -59,7 +59,8 @@ def gen_nz(rnd):
             k = rnd.randint(0, M); q = k / M
             pts.add(rnd.choice([q, math.nextafter(q, 2.0), math.nextafter(q, -1.0), round(q, 2), round(q, 3)]))
         samples = sorted(x for x in pts if 0.0 <= x <= 1.0) or [1.0]
-    return dict(kind=kind, n=n, edges=edges, samples=samples, seed=rnd.random())
+    return dict(kind=kind, n=n, edges=edges, samples=samples, seed=rnd.random(),
+                how=rnd.choice(['graph', 'graph', 'fixed', 'limit1', 'limit2']))
 
 
 def run_nz(spec):
@@ -67,6 +68,8 @@ def run_nz(spec):
     nzmod.numpy = Shim(rnd)
     n = spec['n']
     g = nx.Graph(); g.add_nodes_from(range(n)); g.add_edges_from([tuple(e) for e in spec['edges']])
+    for v in g.nodes(): g.nodes[v]['w'] = v                        # the prototype carries attributes: they have to survive too
+    for (a, b) in g.edges(): g.edges[a, b]['w'] = a + b
     proto = g.copy()
     kind = spec['kind']
     Base = BondPercolation if kind == 'bond' else SitePercolation
@@ -81,6 +84,7 @@ def run_nz(spec):
             exp.append(f"SAMPLE {bits(p)} gcc={int(self._gcc)} ncomp={int(self._ncomponents)} c={[int(x) for x in self._components]} "
                        f"edges={es}".replace("'", ""))
             info['samples'] += 1
+            if wg is g and not viol: viol.append(f"sample {p}: the run works on the prototype network itself, not on a copy")
             # ---- direct oracle: the reported quantities against a BFS of the working network ----
             if not viol:
                 k = st.get('occupied', 0)
@@ -124,10 +128,18 @@ def run_nz(spec):
         def simulationStarted(self, params):
             if kind == 'site':
                 st['og'] = {u: list(self._originalWorkingNetwork.adj[u]) for u in self._originalWorkingNetwork.nodes()}
-    e = E(g, samples=spec['samples'])
+    from epydemic import FixedNetwork
+    how = spec.get('how', 'graph')
+    src = g if how == 'graph' else FixedNetwork(g) if how == 'fixed' else FixedNetwork(g, limit=1 if how == 'limit1' else 2)
+    e = E(src, samples=spec['samples'])
     pts = list(e._samplepoints)
     res = None
     try:
+        if how == 'limit2':
+            # an earlier run on the same experiment (the generator's first instance); then forget what it recorded
+            rnd0 = random.Random(spec['seed'] + 1); nzmod.numpy = Shim(rnd0)
+            e.set({}).run(fatal=True)
+            exp.clear(); viol.clear(); info['samples'] = 0; st.clear(); nzmod.numpy = Shim(rnd)
         rc = e.set({}).run(fatal=True)
         res = rc['results']
     except RecursionError:
@@ -149,6 +161,9 @@ def run_nz(spec):
                 if gccs[-1] != max(len(c) for c in comps): viol.append(f"sample at 1.0 reports gcc {gccs[-1]} for the complete network")
         if sorted(map(tuple, map(sorted, g.edges()))) != sorted(map(tuple, map(sorted, proto.edges()))) or sorted(g.nodes()) != sorted(proto.nodes()):
             viol.append("the prototype network was modified")
+        elif sorted(g.nodes(data='w')) != sorted(proto.nodes(data='w')) or sorted((min(a, b), max(a, b), w) for a, b, w in g.edges(data='w')) != \
+                sorted((min(a, b), max(a, b), w) for a, b, w in proto.edges(data='w')):
+            viol.append("the prototype network lost its node or edge attributes")
     exp.append("END")
     inp = [f"N {n}", "SP " + ' '.join(str(bits(p)) for p in pts)]
     if 'order' in st:
